@@ -1177,9 +1177,13 @@ pub(crate) fn h_merge_unique_name() {
     if a2 { at.push_str(&unit("x.MERGE2", "1")); }
     at.push_str("/end MODULE /end PROJECT");
     let mut bt = String::from(head);
-    bt.push_str(&unit("x", "2"));
-    if b1 { bt.push_str(&unit("x.MERGE", "2")); }
-    if b2 { bt.push_str(&unit("x.MERGE2", "2")); }
+    bt.push_str(&unit("x", "2x"));
+    if b1 { bt.push_str(&unit("x.MERGE", "2m")); }
+    if b2 { bt.push_str(&unit("x.MERGE2", "2n")); }
+    // users in B: one COMPU_METHOD per unit of B
+    bt.push_str("/begin COMPU_METHOD cmx \"\" IDENTICAL \"%6.3\" \"\" REF_UNIT x /end COMPU_METHOD\n");
+    if b1 { bt.push_str("/begin COMPU_METHOD cmm \"\" IDENTICAL \"%6.3\" \"\" REF_UNIT x.MERGE /end COMPU_METHOD\n"); }
+    if b2 { bt.push_str("/begin COMPU_METHOD cmn \"\" IDENTICAL \"%6.3\" \"\" REF_UNIT x.MERGE2 /end COMPU_METHOD\n"); }
     bt.push_str("/end MODULE /end PROJECT");
     let mut a = load_ok(&at);
     let mut b = load_ok(&bt);
@@ -1194,12 +1198,21 @@ pub(crate) fn h_merge_unique_name() {
     let mut from_b = 0;
     let mut names: Vec<String> = Vec::new();
     for u in m.unit.iter() {
-        if u.long_identifier == "2" { from_b += 1; }
+        if u.long_identifier.starts_with('2') { from_b += 1; }
         vrt_check(!names.contains(&u.get_name().to_string()), "C08 names stay unique within the namespace");
         names.push(u.get_name().to_string());
     }
     vrt_check(from_b == nb, "C08 every named element of B is represented exactly once in the result");
     vrt_check(m.unit.len() == a_before.project.module[0].unit.len() + nb, "C08 conflicting elements are added, none is lost or duplicated");
+    // C09: every REF_UNIT of B's compu methods designates exactly the unit that represents its original target
+    for (cm, lid) in [("cmx", "2x"), ("cmm", "2m"), ("cmn", "2n")] {
+        if let Some(c) = m.compu_method.get(cm) {
+            match c.ref_unit.as_ref().and_then(|r| m.unit.get(&r.unit)) {
+                Some(u) => vrt_check(u.long_identifier == lid, "C09 a reference of B designates the element that represents its original target, also when B already holds names of the form X.MERGE"),
+                None => vrt_check(false, "C09 a reference of B still resolves after the merge (pre-existing X.MERGE names)"),
+            }
+        }
+    }
 }
 
 /// the same name in different kinds of one shared namespace
